@@ -243,7 +243,7 @@ fn padding(cx: &mut Ctx, src: &sm::Src) {
         ("fill-count", "letwidth=match&self.min_field_width{Some(CFormatQuantity::Amount(width))=>cmp::max(width,&num_chars),_=>&num_chars,};letfill_chars_needed=width.saturating_sub(num_chars);", "fill count = max(width, chars) - chars with chars counted in characters (+ prefix)"),
         ("zero-pad-number", "ifself.flags.contains(CConversionFlags::ZERO_PAD){letfill_char=if!self.flags.contains(CConversionFlags::LEFT_ADJUST){'0'}else{' '};letsigned_prefix=format!(\"{sign_string}{prefix}\");format!(\"{}{}\",signed_prefix,self.fill_string(padded_magnitude_string,fill_char,Some(signed_prefix.chars().count()),),)}", "format_number: sign+prefix first, counted in the width, '-' overrides '0'"),
         ("zero-pad-float", "ifself.flags.contains(CConversionFlags::ZERO_PAD){letfill_char=if!self.flags.contains(CConversionFlags::LEFT_ADJUST){'0'}else{' '};format!(\"{}{}\",sign_string,self.fill_string(magnitude_string,fill_char,Some(sign_string.chars().count()),))}", "format_float: sign first, counted in the width, '-' overrides '0'"),
-        ("precision-truncate", "Some(CFormatPrecision::Quantity(CFormatQuantity::Amount(precision)))if*precision<string.chars().count()=>{string.chars().take(*precision).collect::<String>()}", "string precision truncates by characters"),
+        ("precision-truncate", "Some(CFormatPrecision::Quantity(CFormatQuantity::Amount(precision)))if*precision<string.chars().count()=>string.chars().take(*precision).collect::<String>(),", "string precision truncates by characters"),
         ("precision-zero-fill", "letpadded_magnitude_string=self.fill_string_with_precision(magnitude_string,'0');", "integer precision = minimum digits (zero fill on the left)"),
     ];
     for (k, frag, what) in checks {
